@@ -47,3 +47,28 @@ Section Blocks.
     end.
   Definition exec_list (l : list stmt) (e : venv) : venv := fold_left (fun e s => exec s e) l e.
 End Blocks.
+
+(* a receiver of union type (Do.unionBlockParameters): every variant that has the method gives one row of declared
+   parameter types, padded with NilClass up to the number of block variables; parameter i is the union (`unify`) of
+   column i, taken over the rows that reach it *)
+Section UnionReceiver.
+  Variable A : Type.
+  Variable nil_t : A.
+  Variable unify : list A -> A.            (* base.MakeUnifiedT *)
+
+  Definition pad_row (n : nat) (ds : list A) : list A := ds ++ repeat nil_t (n - List.length ds).
+  Definition column (i : nat) (rows : list (list A)) : list A :=
+    flat_map (fun r => match nth_error r i with Some v => [v] | None => [] end) rows.
+  Definition widest (rows : list (list A)) : nat := fold_left Nat.max (map (@List.length A) rows) 0.
+  Definition union_declared (n : nat) (rows : list (list A)) : list A :=
+    let padded := map (pad_row n) rows in
+    map (fun i => unify (column i padded)) (seq 0 (widest padded)).
+End UnionReceiver.
+
+(* MakeUnifiedT on printed atomic types: first occurrences; one variant is itself *)
+Definition unify_printed (l : list string) : string :=
+  match uniq l with
+  | [] => "Union<>"
+  | [x] => x
+  | x :: r => String.append "Union<" (String.append (fold_left (fun a b => String.append a (String.append " " b)) r x) ">")
+  end.
